@@ -84,6 +84,15 @@ pub fn case(ctx: &Ctx, env: &RealEnv, dir: &std::path::Path, case: u64, seed: u6
             discovers: false,
         };
         if rng.chance(1, 4) {
+            // a second output below the first one's directory, and a third elsewhere
+            let base = std::path::Path::new(&s.outs[0]).parent().map(|p| p.to_string_lossy().into_owned()).unwrap_or_default();
+            let sep = if base.is_empty() { "" } else { "/" };
+            s.outs.push(format!("{}{}nested{}/more/o{}b", base, sep, i, i));
+            if rng.chance(1, 2) {
+                s.iouts.push(format!("other{}/o{}c", i, i));
+            }
+        }
+        if rng.chance(1, 4) {
             let content = *rng.pick(&["a b c", "\"quoted\" 'single'", "é ビ 😀", "x  y   z", "-I. -DX=\"1 2\""]);
             s.rsp = Some((format!("rsp/dir{}/{}.rsp", i % 3, id), content.to_string()));
         }
